@@ -80,8 +80,8 @@ WorkThread::WorkThread(event::Loop *main_loop) :
     d_(new Data)
 {
     d_->default_main_loop = main_loop;
+    d_->stop_flag = false;  //! 必须在工作线程启动之前设置
     d_->work_thread = std::thread(std::bind(&WorkThread::threadProc, this));
-    d_->stop_flag = false;
 }
 
 WorkThread::~WorkThread()
@@ -283,9 +283,11 @@ void WorkThread::cleanup()
             d_->task_pool.free(d_->undo_tasks_cabinet.free(token));
             d_->undo_tasks_token_deque.pop_front();
         }
+
+        //! stop_flag 由工作线程在持锁状态下读取，所以也必须在持锁状态下写
+        d_->stop_flag = true;
     }
 
-    d_->stop_flag = true;
     d_->cond_var.notify_all();
 
     d_->work_thread.join();
